@@ -161,6 +161,10 @@ impl Str {
     pub fn trim_end<'a>(&'a self) -> (r: &'a Str)
         ensures r@ == trim_end_spec(self@),
     { unimplemented!() }
+    /// other trims an edit may switch to (`trim_end_matches(pat)`, `trim()`, `trim_start()`): present so that the edit is
+    /// judged; nothing is promised about what they strip
+    #[verifier::external_body]
+    pub fn trim_end_matches_any<'a>(&'a self) -> (r: &'a Str) { unimplemented!() }
     /// `str::splitn(n, sep)` (ASSUMED std contract: splitn_spec)
     #[verifier::external_body]
     pub fn splitn<'a>(&'a self, n: usize, sep: char) -> (r: VSplit<'a>)
